@@ -30,7 +30,7 @@ COMPONENTS = {"real": ["TradingEnv", "Transmitter", "Broker", "Exchange", "IStat
               "harness": ["seeded call-level scheduler", "recording observers", "fault ops (clock write, PRNG draw)"], "stub": []}
 PROBE_FLOORS = {"two_chain_envs_different_leads": 8, "prefix_malformed_action": 34, "prefix_missing_price": 3, "prefix_ruin": 5,
                 "prefix_abandoned_at_step_0": 18, "clock_left_in_future_by_prefix": 82, "interleaved_envs_ge_2": 59,
-                "foreign_clock_write": 47, "foreign_prng_draw": 50, "prefix_on_other_fold": 6, "timesteps_without_events": 14}
+                "foreign_clock_write": 47, "foreign_prng_draw": 50, "prefix_on_other_fold": 6, "timesteps_without_events": 14, "prefix_observer_crash_fired": 23, "observer_crash_during_reset": 16, "observer_crash_during_step": 8}
 
 PROFILE = {
     "n_min": 3, "n_max": 9, "n_long": 16, "p_long": 0.05, "c_min": 1, "c_max": 3, "p_bar": 1.0, "extras_max": 6,
@@ -112,7 +112,7 @@ def reference_actions(rng, env, meta):
 
 def prefix_episode(rng, env, meta, ref, tag):
     """One earlier episode: returns (ops, kind)."""
-    kinds = ["complete", "abandoned", "abandoned", "malformed"]
+    kinds = ["complete", "abandoned", "abandoned", "malformed", "observer_crash"]
     if meta["kind"] == "plain" and len(ref) >= 2:
         kinds += ["length_override"]
     if meta["late"] is not None and env["space"]["type"] == "box":
@@ -138,6 +138,13 @@ def prefix_episode(rng, env, meta, ref, tag):
         ops[0]["episode_length"] = mlen
         for a in ref[:rng.randint(0, mlen - 1)]:
             ops.append({"op": "step", "env": tag, "action": a})
+    elif kind == "observer_crash":
+        # user code (an observer callback) fails in the middle of event delivery, during the history replay of
+        # reset() or inside some step; the calls that follow hit a half-updated environment
+        ops.insert(0, {"op": "arm", "env": tag, "n": rng.choice([1, 2, 3, 5, 8, 13, 21, 34, 55])})
+        for a in ref[:rng.randint(0, n)]:
+            ops.append({"op": "step", "env": tag, "action": a})
+        ops.append({"op": "arm", "env": tag, "n": None})
     elif kind == "abandoned":
         j = rng.randint(0, max(0, n - 1))
         for a in ref[:j]:
@@ -361,6 +368,15 @@ def execute(scenario):
                     probe("prefix_abandoned_at_step_0")
                 elif pk == "length_override":
                     probe("prefix_reset_with_length_override")
+                elif pk == "observer_crash":
+                    crashes = [r for r in alone.sink.records if r.get("kind") == "crash"]
+                    if crashes:
+                        probe("prefix_observer_crash_fired")
+                        api = [r for r in alone.sink.records if r.get("kind") in ("reset", "step") and r.get("exc") == "InjectedCrash"]
+                        if any(r["kind"] == "reset" for r in api):
+                            probe("observer_crash_during_reset")
+                        if any(r["kind"] == "step" for r in api):
+                            probe("observer_crash_during_step")
             if any(op.get("other_fold") and op.get("env") == tag for op in scenario["script"]):
                 probe("prefix_on_other_fold")
             env_spec = scenario["envs"][tag]
